@@ -483,6 +483,8 @@ def run(ck: Checker) -> None:
     ck.guard("R-IDENT-RETURN", lambda: r_ident_return(ck))
     ck.guard("R-TRANSFORM-PATH", lambda: r_rule_in_iterator(ck))
     ck.guard("R-DISPATCH", lambda: r_rule_exceptions_pass(ck))
+    from .c10 import r_field_value_alias_edit
+    ck.guard("R-IDENT-RETURN", lambda: r_field_value_alias_edit(ck, "R-IDENT-RETURN", ("pyoak.visitor",)))  # the input tree is never modified
     from . import state_rules as S9
     ck.guard("R-TRANSFORM-PATH", lambda: S9.r_returns_shared(ck, "R-TRANSFORM-PATH", (VIS,)))
     ck.guard("R-REINSTALL", lambda: T.r_reinstall(ck))  # the children that are transformed are the ones the class itself declares
